@@ -164,7 +164,11 @@ def addOrUpdate (c : Cache) (srcName : BList) (srcIdx : Nat) (inc : Record) (now
       let es1 := flushList inc now es
       let es2 := upsert srcName srcIdx inc es1
       { cache := c1.setTable s ((c1.table s).set key es2)
-        result := (es2[upsertIdx inc es1]?).map fun e => (e, !hasMatch inc es1)
+        -- new: no matching entry, or the matching entry was a withdrawn one (TTL <= 1) that is
+        -- announced again with a longer TTL (repair of D24)
+        result := (es2[upsertIdx inc es1]?).map fun e =>
+          (e, !hasMatch inc es1 ||
+              ((es1[upsertIdx inc es1]?).map fun old => decide (old.record.ttl ≤ 1 ∧ inc.ttl > 1)).getD false)
         timers := flushTimers inc now es }
 
 /-! ### Eviction -/
